@@ -70,6 +70,10 @@ func parseProv(toks []string) *ProvDesc {
 			p.Parallel = true
 		case "refl":
 			p.Refl = true
+		case "gen":
+			p.Gen = true
+		case "gennf":
+			p.GenNF = true
 		}
 	}
 	p.Loose, p.MustConsume, p.ConsOpt, p.ShadowOK = pInts(m["loose"]), pInts(m["mc"]), pInts(m["co"]), pInts(m["sh"])
